@@ -214,11 +214,28 @@ func (ans *answer) Return(e error) {
 		case <-ans.c.bgctx.Done():
 		default:
 			ans.c.tasks.Done() // added by handleCall
-			if err := ans.c.shutdown(err); err != nil {
-				ans.c.report(err)
-			}
-			// shutdown released c.mu
-			rl.release()
+			// Tearing the connection down releases the capabilities it
+			// holds, and a capability backed by a server only shuts down
+			// once the server's calls have returned - this call included
+			// if the connection holds the last reference to its target.
+			// Returner.Return must therefore not wait for the teardown:
+			// do it on a goroutine of its own.
+			c := ans.c
+			c.mu.Unlock()
+			go func() {
+				c.mu.Lock()
+				select {
+				case <-c.bgctx.Done():
+					// Close or the receive loop got there first.
+					c.mu.Unlock()
+				default:
+					if err := c.shutdown(err); err != nil {
+						c.report(err)
+					}
+					// shutdown released c.mu
+				}
+				rl.release()
+			}()
 			return
 		}
 	}
